@@ -34,6 +34,7 @@ def affectedMulti (kind : String) (k : Nat) (fixedN : Nat) (multi : List MR) : B
 def affected (kind : String) (k nreqs : Nat) : Bool :=
   if k ≥ nreqs then false
   else if kind == "norange" then k ≥ 2
+  else if kind == "hugecount" || kind == "morecount" then k = 0   -- a `.sync` announcing more blocks than it holds
   else if kind == "short" || kind == "tiny" then k ≠ 1
   else true
 
